@@ -32,6 +32,7 @@ pub struct InstanceState {
     most_recent_disposed_generation_count: i32,
     most_recent_no_writers_generation_count: i32,
     last_received_time_stamp: Time,
+    alive_writer_list: Vec<[u8; 16]>,
 }
 
 impl InstanceState {
@@ -43,17 +44,38 @@ impl InstanceState {
             most_recent_disposed_generation_count: 0,
             most_recent_no_writers_generation_count: 0,
             last_received_time_stamp: Time::new(TIME_INVALID_SEC, TIME_INVALID_NSEC),
+            alive_writer_list: Vec::new(),
         }
     }
 
-    pub fn update_state(&mut self, change_kind: ChangeKind, now: Option<Time>) {
+    pub fn update_state(
+        &mut self,
+        change_kind: ChangeKind,
+        writer_guid: [u8; 16],
+        now: Option<Time>,
+    ) {
+        // Keep track of the writers that have the instance registered
+        match change_kind {
+            ChangeKind::Alive | ChangeKind::AliveFiltered => {
+                if !self.alive_writer_list.contains(&writer_guid) {
+                    self.alive_writer_list.push(writer_guid);
+                }
+            }
+            ChangeKind::NotAliveUnregistered | ChangeKind::NotAliveDisposedUnregistered => {
+                self.alive_writer_list.retain(|x| x != &writer_guid);
+            }
+            ChangeKind::NotAliveDisposed => (),
+        }
+
         match self.instance_state {
             InstanceStateKind::Alive => {
                 if change_kind == ChangeKind::NotAliveDisposed
                     || change_kind == ChangeKind::NotAliveDisposedUnregistered
                 {
                     self.instance_state = InstanceStateKind::NotAliveDisposed;
-                } else if change_kind == ChangeKind::NotAliveUnregistered {
+                } else if change_kind == ChangeKind::NotAliveUnregistered
+                    && self.alive_writer_list.is_empty()
+                {
                     self.instance_state = InstanceStateKind::NotAliveNoWriters;
                 }
             }
@@ -197,7 +219,7 @@ impl<T> DataReaderEntity<T> {
                 .iter_mut()
                 .find(|x| x.handle() == &cache_change.instance_handle)
                 .expect("Instance must exist");
-            instance_from_collection.update_state(cache_change.kind, None);
+            instance_from_collection.update_state(cache_change.kind, cache_change.writer_guid, None);
             let sample_state = cache_change.sample_state;
             let view_state = instance.view_state;
             let instance_state = instance.instance_state;
@@ -318,10 +340,10 @@ impl<T> DataReaderEntity<T> {
                     .iter_mut()
                     .find(|x| x.handle() == &instance_handle)
                 {
-                    Some(x) => x.update_state(change_kind, Some(reception_timestamp)),
+                    Some(x) => x.update_state(change_kind, writer_guid.into(), Some(reception_timestamp)),
                     None => {
                         let mut s = InstanceState::new(instance_handle);
-                        s.update_state(change_kind, Some(reception_timestamp));
+                        s.update_state(change_kind, writer_guid.into(), Some(reception_timestamp));
                         self.instances.push(s);
                     }
                 }
@@ -336,7 +358,7 @@ impl<T> DataReaderEntity<T> {
                     .find(|x| x.handle() == &instance_handle)
                 {
                     Some(instance) => {
-                        instance.update_state(change_kind, Some(reception_timestamp));
+                        instance.update_state(change_kind, writer_guid.into(), Some(reception_timestamp));
                         Ok(())
                     }
                     None => Err(DdsError::Error(
@@ -532,10 +554,10 @@ impl<T> DataReaderEntity<T> {
                     .iter_mut()
                     .find(|x| x.handle() == &sample.instance_handle)
                 {
-                    Some(x) => x.update_state(sample.kind, Some(reception_timestamp)),
+                    Some(x) => x.update_state(sample.kind, sample.writer_guid, Some(reception_timestamp)),
                     None => {
                         let mut s = InstanceState::new(sample.instance_handle);
-                        s.update_state(sample.kind, Some(reception_timestamp));
+                        s.update_state(sample.kind, sample.writer_guid, Some(reception_timestamp));
                         self.instances.push(s);
                     }
                 }
@@ -550,7 +572,7 @@ impl<T> DataReaderEntity<T> {
                     .find(|x| x.handle() == &sample.instance_handle)
                 {
                     Some(instance) => {
-                        instance.update_state(sample.kind, Some(reception_timestamp));
+                        instance.update_state(sample.kind, sample.writer_guid, Some(reception_timestamp));
                         Ok(())
                     }
                     None => Err(DdsError::Error(
